@@ -186,6 +186,7 @@ ABTU_ret_err int
 ABTI_mem_pool_init_local_pool(ABTI_mem_pool_local_pool *p_local_pool,
                               ABTI_mem_pool_global_pool *p_global_pool)
 {
+    ABTI_VERIF_EVENT(82, p_local_pool, p_global_pool, 0);
     p_local_pool->p_global_pool = p_global_pool;
     p_local_pool->num_headers_per_bucket =
         p_global_pool->num_headers_per_bucket;
@@ -200,6 +201,7 @@ ABTI_mem_pool_init_local_pool(ABTI_mem_pool_local_pool *p_local_pool,
 
 void ABTI_mem_pool_destroy_local_pool(ABTI_mem_pool_local_pool *p_local_pool)
 {
+    ABTI_VERIF_EVENT(83, p_local_pool, 0, 0);
     /* Return the remaining buckets to the global pool. */
     int bucket_index = p_local_pool->bucket_index;
     int i;
